@@ -297,6 +297,9 @@ func (h *c50H) report(req *v3lrspb.LoadStatsRequest) {
 			if c.minLo != c.maxHi {
 				e.Probe("in_progress_changed_during_window")
 			}
+			if ip == 0 && l.GetTotalIssuedRequests() == 0 && l.GetTotalSuccessfulRequests() == 0 && l.GetTotalErrorRequests() == 0 {
+				e.Probe("locality_reported_for_server_loads_only")
+			}
 			ms := append([]*v3endpointpb.EndpointLoadMetricStats{}, l.GetLoadMetricStats()...)
 			sort.Slice(ms, func(i, j int) bool { return ms[i].GetMetricName() < ms[j].GetMetricName() })
 			for _, m := range ms {
@@ -464,9 +467,9 @@ func runC50(e *core.Env, s *c50Scenario) {
 					continue
 				}
 				if c.inLast {
-					// (kept apart from the next oracle: that one has a known
-					// cause which needs the locality to be absent from the
-					// final report)
+					// (kept apart from the next oracle: that one had a known
+					// cause, repaired by /repo commit b5e8867, which needs the
+					// locality to be absent from the final report)
 					e.Violate("server_load_lost", "cluster %d locality %d metric %q: recorded n=%d sum=%v, reports total n=%d sum=%v although the final report covers the locality", rep, li, c50Names[ni], c.loadN[ni], c.loadSum[ni], c.rLoadN[ni], c.rLoadSum[ni])
 				} else {
 					e.Violate("server_load_conservation", "cluster %d locality %d metric %q: recorded n=%d sum=%v, reports total n=%d sum=%v", rep, li, c50Names[ni], c.loadN[ni], c.loadSum[ni], c.rLoadN[ni], c.rLoadSum[ni])
